@@ -121,6 +121,9 @@ func cmdCheck(args []string) int {
 			for _, cr := range c.Commutes {
 				units = append(units, p.encodeCommute(c, cr.Loop, cr.Label))
 			}
+			if c.TrustedPart {
+				units = append(units, p.encodeCallPreOnly(c))
+			}
 			continue
 		}
 		if len(c.Commutes) > 0 {
@@ -157,6 +160,20 @@ func cmdCheck(args []string) int {
 				o.Quick = true
 			}
 		}
+	}
+	// A unit may serve several properties. An obligation whose label names another property (label "Cxx.…") is not
+	// part of this property's check: drop it here (generic obligations - frames, safety, unlabelled invariants and
+	// preconditions, covers - stay).
+	otherProp := regexp.MustCompile(`^C[0-9][0-9]\.`)
+	for _, u := range units {
+		var keep []*Obl
+		for _, o := range u.Obls {
+			if otherProp.MatchString(o.Label) && !strings.HasPrefix(o.Label, *prop+".") && u.Contract != nil && len(u.Contract.Props) > 1 {
+				continue
+			}
+			keep = append(keep, o)
+		}
+		u.Obls = keep
 	}
 	dir, _ := os.MkdirTemp("/var/tmp", "govc-")
 	defer os.RemoveAll(dir)
@@ -285,6 +302,23 @@ func cmdCheck(args []string) int {
 			}
 		}
 		sort.Strings(nc.Claimed)
+		// maintenance guard: an obligation that was claimed and no longer is must be looked at, not dropped quietly
+		newSet := map[string]bool{}
+		for _, id := range nc.Claimed {
+			newSet[id] = true
+		}
+		for _, id := range claims.Claimed {
+			if !newSet[id] {
+				why := nc.Unclaimed[id]
+				if why == "" {
+					why = "no longer generated"
+				}
+				fmt.Printf("DROPPED-CLAIM %s: %s\n", id, why)
+			}
+		}
+		for id, why := range nc.Unclaimed {
+			fmt.Printf("UNCLAIMED %s: %s\n", id, why)
+		}
 		b, _ := json.MarshalIndent(nc, "", " ")
 		os.MkdirAll(filepath.Join(verifRoot(), "claims"), 0o755)
 		os.WriteFile(filepath.Join(verifRoot(), "claims", *prop+".json"), append(b, '\n'), 0o644)
@@ -445,4 +479,25 @@ func runWitness(repo string, k KnownFinding) (bool, string) {
 	cmd.Env = append(os.Environ(), "GOWORK=off", "GOFLAGS=-mod=mod", "GOPROXY=off", "GOSUMDB=off")
 	out, err := cmd.CombinedOutput()
 	return err == nil, string(out)
+}
+
+// encodeCallPreOnly: for a "trusted callpre" contract the postconditions stay assumed, but the callpre obligations
+// generated in the body (and the covers that show they are reachable) are checked.
+func (p *Program) encodeCallPreOnly(c *Contract) *UnitResult {
+	u := p.encodeUnit(c)
+	var keep []*Obl
+	for _, o := range u.Obls {
+		// (loop invariants are kept: a checked postcondition may rest on them)
+		ok := strings.Contains(o.ID, "#pre[call.") || strings.Contains(o.ID, "#cover[requires]") || strings.Contains(o.ID, "#inv[")
+		for _, l := range c.TrustedKeep {
+			if o.Label == l {
+				ok = true
+			}
+		}
+		if ok {
+			keep = append(keep, o)
+		}
+	}
+	u.Obls = keep
+	return u
 }
